@@ -325,6 +325,7 @@ pub fn rtx_piggyback(tier: Tier, depth: usize) -> Driver {
         state(AckSpec::Cur, def, SackSpec::None),
         Act::Tick,
         Act::Wait(50),
+        Act::TransportPendingOnce,
     ];
     d
 }
@@ -835,6 +836,45 @@ pub fn nagle_mtu(tier: Tier, on: bool, probe_retx: usize, depth: usize) -> Drive
     d
 }
 
+/// Nagle with the write half going away: data in flight, a small write held back, then the writer (or
+/// the whole stream) is dropped before the ACK arrives - the held-back bytes still wait for it.
+pub fn nagle_close(tier: Tier, depth: usize) -> Driver {
+    let mut d = nagle(tier, true, depth);
+    d.name = "nagle-close".into();
+    let w = |b: usize| WndSpec::Bytes(b as u32);
+    d.alphabet = vec![
+        Act::Write(MSS),
+        Act::Write(4),
+        Act::Write(MSS + 3),
+        Act::DropWriter,
+        Act::DropReader,
+        Act::Shutdown,
+        state(AckSpec::Plus(1), w(1 << 20), SackSpec::None),
+        state(AckSpec::All, w(1 << 20), SackSpec::None),
+        Act::Tick,
+    ];
+    d
+}
+
+/// Nagle off on a probing path with selective ACKs: a probe the peer already holds (an earlier segment
+/// is missing) must not keep new small writes from being cut and sent.
+pub fn nagle_mtu_sack(tier: Tier, probe_retx: usize, depth: usize) -> Driver {
+    let mut d = nagle_mtu(tier, false, probe_retx, depth);
+    let def = WndSpec::Default;
+    d.name = format!("nagle-mtu-off-sack-retx{probe_retx}");
+    d.alphabet = vec![
+        Act::Write(10),
+        Act::Write(600),
+        Act::Write(1500),
+        state(AckSpec::Plus(1), def, SackSpec::None),
+        state(AckSpec::All, def, SackSpec::None),
+        state(AckSpec::Cur, def, SackSpec::FirstN(1)),
+        state(AckSpec::Cur, def, SackSpec::AllSent),
+        Act::Tick,
+    ];
+    d
+}
+
 /// The same with traffic in both directions: the peer's own (larger) payloads raise the proven size
 /// while the probe is outstanding, and the application adds a short remainder - a re-cut of the
 /// probe's sequence number then comes out in another size.
@@ -901,5 +941,7 @@ pub fn all_drivers(tier: Tier) -> Vec<Driver> {
     v.push(mtu_close(tier, Some(1000), 0, 5));
     v.push(nagle_mtu(tier, false, 1, 5));
     v.push(nagle_mtu(tier, true, 1, 5));
+    v.push(nagle_close(tier, 5));
+    v.push(nagle_mtu_sack(tier, 1, 5));
     v
 }
